@@ -97,6 +97,17 @@ class C13:
 
 
 def run(ctx: Ctx, rep: Report, tier: str):
+    rep.rule("C13.Z7", "normalize_path: every result is derived from the one collapsed value (join of the re-split parts); the for_display form differs from the "
+             "comparison form only in the case of the leaf, so both forms of one path name the same object", expect_min=2)
+    np_ = ctx.prog.func("Provider.normalize_path")
+    coll = [n.targets[0].id for n in ctx.own_nodes(np_) if isinstance(n, ast.Assign) and isinstance(n.targets[0], ast.Name) and pat.match("self.join(*$P)", n.value) is not None]
+    if len(coll) != 1:
+        raise AnalysisError("normalize_path: the collapsed value `self.join(*parts)` was not found")
+    locs = set(np_.params()) | {n.targets[0].id for n in ctx.own_nodes(np_) if isinstance(n, ast.Assign) and isinstance(n.targets[0], ast.Name)}
+    for r_ in [n for n in ctx.own_nodes(np_) if isinstance(n, ast.Return)]:
+        used = {x.id for x in ast.walk(r_.value) if isinstance(x, ast.Name)} & locs - {np_.params()[0]} if r_.value is not None else set()
+        rep.check("C13.Z7", "normalize_path|%s" % ast.unparse(r_)[:60], ctx.line(np_, r_), used == {coll[0]}, "built from %s only" % coll[0],
+                  "a result of normalize_path is built from %s instead of the collapsed value `%s`: the display form and the comparison form of one path differ in more than case" % (sorted(used - {coll[0]}) or "nothing", coll[0]))
     rep.rule("C13.Z1", "alias of C12.Y5: component boundary + symmetric case fold in is_subpath", expect_min=4)
     rep.rule("C13.Z6", "alias of C12.Y2: default translate uses the source side's provider for membership and the destination's for the join", expect_min=3)
     c12 = C12(ctx, rep)
